@@ -88,6 +88,17 @@ CHECKS.update({
             'errors are representable); generator-labelled expectation as independent oracle.', '§6 C13', ''),
 })
 
+CHECKS.update({
+    'C03': ('Lean theorems C03.* over the port-selection model (the if/elif chain = explicit-name-first-else-covering-'
+            'wildcard, totality of the matched dictionary, every listed fault rejected with the configuration error, '
+            'order freedom, at most one semantics); tie: exhaustive selections up to 2 (quick) / 3 (thorough) names per '
+            'side through PortsCfg.match and a through-build stream (injected ports, uncovered ports).', '§6 C03', ''),
+    'C20': ('PARTIAL. Lean theorems C20.* (declaration = definition + default, declaration/definition shapes, definition '
+            'ignores prefix/override/defaults/explicit, no definition when initialised, balanced namespace/struct blocks); '
+            'tie: random descriptors through the real cpp_gen classes; a signature reader evaluates the clauses on the '
+            'rendered text.', '§6 C20', 'Compiler acceptance of arbitrary compositions is not expressible in the model.'),
+})
+
 NOT_YET = {}
 
 
